@@ -8,10 +8,11 @@ git add -A >/dev/null; git commit -qm "evidence/wip before merging $n" >/dev/nul
 before=$(git rev-parse HEAD)
 br=$(git -C /tmp/w/$n rev-parse --abbrev-ref HEAD)
 tip=$(git -C /tmp/w/$n log --oneline -1)
-git pull -q --no-edit /tmp/w/$n $br >/dev/null 2>&1
+git pull -q --no-rebase --no-edit /tmp/w/$n $br >/dev/null 2>&1
 tools/resolve_shared.py | grep -v "^resolved" 
 if git status --short | grep -q "^UU\|^AA\|^DU\|^UD"; then echo "UNRESOLVED CONFLICTS:"; git status --short | grep "^UU\|^AA\|^DU\|^UD"; git merge --abort 2>/dev/null; git reset -q --hard $before; exit 1; fi
 git add -A; git commit -qm "merge $n ($tip)" >/dev/null 2>&1
+if [ "$(git rev-parse HEAD)" = "$before" ]; then echo "NOTHING MERGED from $n (pull failed?)"; exit 1; fi
 out=$(cd lean && lake build CtyModel ctydrv 2>&1 | grep -E "^error|error:" | head -5)
 if [ -n "$out" ]; then echo "BUILD BROKEN after merging $n:"; echo "$out"; git reset -q --hard $before; exit 1; fi
 echo "merged $n: $tip"
